@@ -7,4 +7,6 @@ cp /repo/go.sum harness/go.sum
 mkdir -p bin evidence
 (cd harness && go build -tags verif -o ../bin/driver .)
 java -cp /opt/veriftools/tla/tla2tools.jar tlc2.TLC -h >/dev/null 2>&1 || true
+(cd harness && go build -race -tags verif -o ../bin/driver-race . ) || true
+./vcheck warm
 echo setup ok
